@@ -163,6 +163,23 @@ func (g *gen) noteFixed(t []byte, f *Field) {
 func (g *gen) fixtext(label string, f *Field) HexBytes {
 	pad := byte(f.Pad)
 	var t []byte
+	if len(g.seenTexts) > 0 && rapid.IntRange(0, 11).Draw(g.rt, label+".rep") == 11 {
+		// repeat an earlier text of this message, or the wire image of an earlier field
+		t = append([]byte{}, g.seenTexts[rapid.IntRange(0, len(g.seenTexts)-1).Draw(g.rt, label+".repi")]...)
+		switch g.o.Mode {
+		case Canonical:
+			if len(t) > f.Width {
+				t = t[:f.Width]
+			}
+			t = stripPadSide(t, pad, f.Left)
+		case Wire:
+			t = refFixedWrite(t, f.Width, pad, f.Left)
+		}
+		g.noteFixed(t, f)
+		g.feat.TextOrList++
+		g.remember(t, f)
+		return t
+	}
 	switch g.o.Mode {
 	case Canonical:
 		var l int
@@ -190,7 +207,18 @@ func (g *gen) fixtext(label string, f *Field) HexBytes {
 	if t == nil {
 		t = []byte{}
 	}
+	g.remember(t, f)
 	return t
+}
+
+// remember keeps a generated text and its wire image for later repetition within the same message.
+func (g *gen) remember(t []byte, f *Field) {
+	if len(g.seenTexts) < 64 && len(t) > 0 && len(t) <= 64 {
+		g.seenTexts = append(g.seenTexts, t)
+		if img := refFixedWrite(t, f.Width, byte(f.Pad), f.Left); f.Width <= 64 && !bytes.Equal(img, t) {
+			g.seenTexts = append(g.seenTexts, img)
+		}
+	}
 }
 
 func expandBytes(n int, salt uint64) []byte {
@@ -403,26 +431,7 @@ func (g *gen) value(typeName string, label string, depth int) *Value {
 				x.N = rapid.Uint64().Draw(g.rt, l) & NMask(f.NType)
 			}
 		case "fixtext":
-			if len(g.seenTexts) > 0 && rapid.IntRange(0, 11).Draw(g.rt, l+".rep") == 11 {
-				t := append([]byte{}, g.seenTexts[rapid.IntRange(0, len(g.seenTexts)-1).Draw(g.rt, l+".repi")]...)
-				switch g.o.Mode {
-				case Canonical:
-					if len(t) > f.Width {
-						t = t[:f.Width]
-					}
-					t = stripPadSide(t, byte(f.Pad), f.Left)
-				case Wire:
-					t = refFixedWrite(t, f.Width, byte(f.Pad), f.Left)
-				}
-				g.noteFixed(t, f)
-				g.feat.TextOrList++
-				x.T = t
-			} else {
-				x.T = g.fixtext(l, f)
-			}
-			if len(g.seenTexts) < 64 && len(x.T) > 0 {
-				g.seenTexts = append(g.seenTexts, x.T)
-			}
+			x.T = g.fixtext(l, f)
 		case "text":
 			if len(g.seenTexts) > 0 && rapid.IntRange(0, 11).Draw(g.rt, l+".rep") == 11 {
 				x.T = append(HexBytes{}, g.seenTexts[rapid.IntRange(0, len(g.seenTexts)-1).Draw(g.rt, l+".repi")]...)
